@@ -46,6 +46,7 @@ def check_program(desc, src, sets, res, compare_ns=True):
     if code is None:
         res.count('not_compilable')
         return
+    observe.DECOY = 'obs(B)' in src
     ref = observe.run(code)
     if ref['exc'] == 'TIMEOUT':
         raise core.HarnessError('generated program does not terminate: %r' % src)
@@ -134,6 +135,7 @@ def replay(case):
     code = scope_engine.try_compile(src)
     if code is None:
         return None
+    observe.DECOY = 'obs(B)' in src
     ref = observe.run(code)
     v = violation_for(src, frozenset(case['options']), ref)
     if v:
